@@ -57,6 +57,44 @@ pub fn encode_all(lv: &Value) -> Result<(), (String, String)> {
         let _ = format!("{lv:?}");
     })
     .map_err(|p| ("debug".to_string(), p))?;
+    // the typed values' own Display / Debug
+    guarded(|| {
+        use std::fmt::Write;
+        let mut s = String::new();
+        match lv {
+            Value::DateTime(x) => {
+                let _ = write!(s, "{x}{x:?}");
+                let _ = x.timezone_short_name();
+                let _ = x.is_utc();
+            }
+            Value::Date(x) => {
+                let _ = write!(s, "{x}{x:?}");
+            }
+            Value::Time(x) => {
+                let _ = write!(s, "{x}{x:?}");
+            }
+            Value::Ref(x) => {
+                let _ = write!(s, "{x}{x:?}");
+            }
+            Value::Symbol(x) => {
+                let _ = write!(s, "{x}{x:?}");
+            }
+            Value::Number(x) => {
+                if let Some(u) = x.unit {
+                    let _ = write!(s, "{u}{u:?}");
+                }
+                let _ = write!(s, "{x:?}");
+            }
+            Value::Grid(x) => {
+                let _ = write!(s, "{x:?}");
+            }
+            other => {
+                let _ = write!(s, "{other:?}");
+            }
+        }
+        let _ = write!(s, "{}", libhaystack::val::kind::HaystackKind::from(lv));
+    })
+    .map_err(|p| ("typed-display".to_string(), p))?;
     if let Value::Dict(d) = lv {
         guarded(|| {
             let _ = d.dis().to_string();
